@@ -115,11 +115,14 @@ Theorem evaluate_decision i s :
   accepted (run chain_evaluate i s) =
   str_mem (a_strategy i) eval_strategies &&
   match a_cv i with Some c => cv_ok true c | None => false end &&
-  scoring_ok (a_scoring i) && y_X_ok false true None (a_y i) (a_X i).
+  scoring_ok (a_scoring i) && y_X_ok false true None (a_y i) (a_X i) &&
+  is_ok (fh_checked (c_fh i)).     (* the splitter's horizon, re-checked for every split *)
 Proof.
   unfold chain_evaluate. run_chain. destruct (str_mem _ _); [|reflexivity]. run_chain.
   destruct (match a_cv i with Some c => cv_ok true c | None => false end); [|reflexivity]. run_chain.
-  destruct (scoring_ok _); [|reflexivity]. run_chain. destruct (y_X_ok _ _ _ _ _); reflexivity.
+  destruct (scoring_ok _); [|reflexivity]. run_chain.
+  destruct (y_X_ok _ _ _ _ _); [|reflexivity]. run_chain.
+  unfold fh_of. destruct (is_ok (fh_checked (c_fh i))); reflexivity.
 Qed.
 
 Theorem window_split_decision i s :
@@ -131,13 +134,19 @@ Proof.
   unfold run_all, chain_split, chain_window_split. run_chain.
   destruct (split_y_ok (a_y i)); [|reflexivity]. run_chain.
   destruct (posint_or_none_ok (c_step i)); [|reflexivity]. run_chain.
-  destruct (posint_or_none_ok (c_wl i)); [|reflexivity]. run_chain.
-  destruct (posint_or_none_ok (c_iw i)); [|reflexivity]. run_chain.
-  unfold fh_of at 1. destruct (is_ok (fh_checked (c_fh i))); [|reflexivity]. run_chain.
-  destruct (windows_fit i); [|reflexivity]. run_chain.
-  destruct (pv_is_none (c_iw i)); run_chain; [reflexivity|].
-  destruct (c_sww i); run_chain; [|reflexivity].
-  destruct (as_int (c_iw i) 0 <=? as_int (c_wl i) 0); reflexivity.
+  destruct (posint_or_none_ok (c_wl i)) eqn:W; [|reflexivity]. run_chain.
+  destruct (posint_or_none_ok (c_iw i)) eqn:I; [|reflexivity]. run_chain.
+  unfold windows_fit, fh_of. destruct (fh_checked (c_fh i)) as [zs|]; [|reflexivity]. run_chain.
+  destruct (c_wl i) as [w| | | |]; try discriminate; run_chain;
+    destruct (c_iw i) as [iw_| | | |]; try discriminate; cbn [pv_is_none negb orb andb];
+    run_chain;
+    repeat match goal with
+           | |- context [?a >? ?b] => let E := fresh "E" in destruct (a >? b) eqn:E
+           end; run_chain;
+    repeat match goal with
+           | |- context [?a <=? ?b] => let E := fresh "E" in destruct (a <=? b) eqn:E
+           end; run_chain; try reflexivity; try lia;
+    destruct (c_sww i); run_chain; try reflexivity; try lia.
 Qed.
 
 (* the sliding splitter entry of the first-generation model, for settings that are not None where the
